@@ -2,66 +2,32 @@ package c20
 
 import (
 	"fmt"
-	"strings"
-	"sync"
 	"testing"
 
 	"github.com/blevesearch/bleve/v2"
-	"github.com/blevesearch/bleve/v2/search/collector"
 )
 
-func TestFlaky(t *testing.T) {
-	collector.PreAllocSizeSkipCap = 8
-	f := families(true)
-	c := &corpus{name: "B", pos: map[string]int{}}
-	for i := 0; i < 120; i++ {
-		id := fmt.Sprintf("B%03d", i)
-		c.pos[id] = i
-		c.ids = append(c.ids, id)
-		c.docs = append(c.docs, f[1].docs[i])
-		c.internal += f[1].docs[i].size()
-	}
-	idx := buildCorpus(c, true, layOne)
-	q := &Q{Kind: "bool", Must: []*Q{T("tags.t", "x")}, MustNot: []*Q{{Kind: "conj", Subs: []*Q{T("items.k", "x"), T("tags.t", "x")}}}}
-	run := func() string {
-		req := bleve.NewSearchRequest(q.ToBleve())
-		req.Size = c.internal + 5
-		res, err := idx.Search(req)
-		if err != nil {
-			return err.Error()
-		}
-		got := map[string]bool{}
-		for _, h := range res.Hits {
-			got[h.ID] = true
-		}
-		return strings.Join(bxKeys(got), " ")
-	}
-	seen := map[string]int{}
-	for i := 0; i < 200; i++ {
-		seen[run()]++
-	}
-	fmt.Println("sequential distinct results:", len(seen))
-	for k, n := range seen {
-		fmt.Println(n, k)
-	}
-	var mu sync.Mutex
-	seen2 := map[string]int{}
-	var wg sync.WaitGroup
-	for w := 0; w < 8; w++ {
-		wg.Add(1)
-		go func() {
-			defer wg.Done()
-			for i := 0; i < 200; i++ {
-				s := run()
-				mu.Lock()
-				seen2[s]++
-				mu.Unlock()
+func TestAll(t *testing.T) {
+	for _, nested := range []bool{true, false} {
+		idx := newMem(nested)
+		idx.Index("p", Doc{Name: "x", Items: []Item{{K: "x", V: "x"}, {K: "y", V: "y"}}}.Data())
+		idx.Index("q", Doc{Name: "y", Items: []Item{{K: "x", V: "x"}}}.Data())
+		for _, q := range []*Q{
+			{Kind: "bool", Must: []*Q{{Kind: "all"}}, MustNot: []*Q{T("name", "x")}},
+			{Kind: "bool", MustNot: []*Q{T("name", "x")}},
+			{Kind: "bool", Must: []*Q{T("name", "x")}, MustNot: []*Q{T("name", "x")}},
+		} {
+			for _, sc := range []string{"", "none"} {
+				req := bleve.NewSearchRequest(q.ToBleve())
+				req.Size = 50
+				req.Score = sc
+				res, err := idx.Search(req)
+				var ids []string
+				for _, h := range res.Hits {
+					ids = append(ids, h.ID)
+				}
+				fmt.Println(nested, sc, q, string(queryJSON(q)), "->", ids, res.Total, err)
 			}
-		}()
-	}
-	wg.Wait()
-	fmt.Println("concurrent distinct results:", len(seen2))
-	for k, n := range seen2 {
-		fmt.Println(n, k)
+		}
 	}
 }
